@@ -27,7 +27,11 @@ CONSTANTS
   TenRanges <- Rng0
   TenDamps <- One0
   TenArms <- One0
+  TenZero <- NoTz
+  SpPairs <- NoSpS
+  SpArms <- One0
   Level = 3
+  Tie = FALSE
   Rand = TRUE
   Modes <- F_ModesAll
   XDis <- F_XDisRow
